@@ -4,6 +4,8 @@ import (
 	"fmt"
 	"go/token"
 	"go/types"
+
+	"golang.org/x/tools/go/ssa"
 )
 
 // flatField describes one primitive leaf of a slice element: the element itself
@@ -126,4 +128,21 @@ func (a *Activation) leafLocs(loc Term, t types.Type) []protectedLoc {
 		return out
 	}
 	return []protectedLoc{{loc: loc, ty: t}}
+}
+
+// baseAlloc follows a chain of field/index address computations back to a local Alloc.
+func baseAlloc(v ssa.Value) *ssa.Alloc {
+	for i := 0; i < 16; i++ {
+		switch x := v.(type) {
+		case *ssa.Alloc:
+			return x
+		case *ssa.FieldAddr:
+			v = x.X
+		case *ssa.IndexAddr:
+			v = x.X
+		default:
+			return nil
+		}
+	}
+	return nil
 }
